@@ -14,8 +14,10 @@
   ```
   `GetTimeout` polls: `for v = GetNoWait(); v == nil; v = GetNoWait() { sleep(t/3); t = timeto-now; if t <= 0 {break} }`.
 
-  The goroutine's program counter is `top` (at the `select`), `polling n` (inside GetTimeout, `n`
-  more polls fit before the deadline — chosen by the environment when the call starts) or `exited`.
+  The goroutine's program counter is `top` (at the `select`), `polling timeto` (inside GetTimeout with
+  deadline `timeto` = the clock read when the call started + the waiting time in force then) or `exited`.
+  Clock readings are supplied by the environment with each `select` and `poll` (any integers: the
+  theorems quantify over arbitrary clock histories, including a clock that jumps or goes backwards).
   The actions of the environment (producers, configuration, cancellation) interleave freely with the
   loop's own actions `select` and `poll`; a cancellation is noticed only at the `select`.
 
@@ -90,9 +92,9 @@ theorem acceptedQ_eq (key : ρ → Nat) (v : Variant) (Z : Zip) (C : Codec ρ) (
 /-! ### the loop machine -/
 
 inductive PC
-  | top                     -- at the `select`
-  | polling (left : Nat)    -- inside GetTimeout: `left` polls still fit before the deadline
-  | exited                  -- `run` has returned
+  | top                      -- at the `select`
+  | polling (timeto : Int)   -- inside GetTimeout: `timeto := SystemNow() + timeout`
+  | exited                   -- `run` has returned
 deriving DecidableEq, Repr
 
 structure LState (ρ : Type) where
@@ -105,8 +107,10 @@ inductive Act (ρ : Type)
   | sendDirect (rs : List ρ)
   | applyConfig (c : Conf)
   | cancel
-  | select (extraPolls : Nat)   -- the loop evaluates its `select`; entering GetTimeout, 1 + extraPolls polls will fit
-  | poll                        -- one `GetNoWait` of the polling loop (followed by the sleep / deadline test)
+  | select (now : Int)   -- the loop evaluates its `select`; if not cancelled it enters
+                         -- `GetTimeout(maxWait)`, which reads the clock: `now`
+  | poll (now : Int)     -- one round of the polling loop: `GetNoWait`, and when that comes back
+                         -- empty-handed the sleep and the clock reading `now` for `t = timeto - now; if t <= 0 {break}`
 
 def linit (st : Settings) (ans : List Bool := []) : LState ρ := ⟨init st ans, .top, false⟩
 
@@ -115,22 +119,23 @@ def lstep (v : Variant) (Z : Zip) (C : Codec ρ) (l : LState ρ) : Act ρ → LS
   | .sendDirect rs => ({ l with core := (sendDirect v Z C l.core rs).1 }, (sendDirect v Z C l.core rs).2)
   | .applyConfig c => ({ l with core := { l.core with settings := c.resolve } }, [])
   | .cancel => ({ l with cancelled := true }, [])
-  | .select k =>
+  | .select now =>
     match l.pc with
     | .top =>
       if l.cancelled then ({ l with core := (stop v Z C l.core).1, pc := .exited }, (stop v Z C l.core).2)
-      else ({ l with pc := .polling (k + 1) }, [])
+      else ({ l with pc := .polling (now + l.core.settings.maxWait) }, [])
     | _ => (l, [])
-  | .poll =>
+  | .poll now =>
     match l.pc with
-    | .polling (n + 1) =>
+    | .polling timeto =>
       match l.core.queue with
       | r :: q =>
         ({ l with core := (appendRec v Z C { l.core with queue := q } r).1, pc := .top },
          (appendRec v Z C { l.core with queue := q } r).2)
       | [] =>
-        if n = 0 then ({ l with core := (sendAndClear v Z C l.core).1, pc := .top }, (sendAndClear v Z C l.core).2)
-        else ({ l with pc := .polling n }, [])
+        if timeto - now ≤ 0 then
+          ({ l with core := (sendAndClear v Z C l.core).1, pc := .top }, (sendAndClear v Z C l.core).2)
+        else (l, [])
     | _ => (l, [])
 
 def lrun (v : Variant) (Z : Zip) (C : Codec ρ) : LState ρ → List (Act ρ) → LState ρ × List (Pack ρ)
@@ -145,9 +150,9 @@ def absAct (l : LState ρ) : Act ρ → List (In ρ)
   | .applyConfig c => [.applyConfig c]
   | .cancel => []
   | .select _ => if l.pc = .top ∧ l.cancelled = true then [.stop] else []
-  | .poll =>
+  | .poll now =>
     match l.pc with
-    | .polling (n + 1) => if l.core.queue ≠ [] ∨ n = 0 then [.step] else []
+    | .polling timeto => if l.core.queue ≠ [] ∨ timeto - now ≤ 0 then [.step] else []
     | _ => []
 
 def absHist (v : Variant) (Z : Zip) (C : Codec ρ) : LState ρ → List (Act ρ) → List (In ρ)
@@ -204,45 +209,40 @@ theorem lstep_refines (l : LState ρ) (a : Act ρ) (hi : LInv l) :
       have e1 : lstep v Z C l (.select k) = (l, []) := by simp [lstep, hpc]
       have e2 : absAct l (.select k) = [] := by simp [absAct, hpc]
       rw [e1, e2]; exact ⟨rfl, rfl, hi⟩
-  | poll =>
+  | poll now =>
     cases hpc : l.pc with
     | top =>
-      have e1 : lstep v Z C l .poll = (l, []) := by simp [lstep, hpc]
-      have e2 : absAct l .poll = [] := by simp [absAct, hpc]
+      have e1 : lstep v Z C l (.poll now) = (l, []) := by simp [lstep, hpc]
+      have e2 : absAct l (.poll now) = [] := by simp [absAct, hpc]
       rw [e1, e2]; exact ⟨rfl, rfl, hi⟩
     | exited =>
-      have e1 : lstep v Z C l .poll = (l, []) := by simp [lstep, hpc]
-      have e2 : absAct l .poll = [] := by simp [absAct, hpc]
+      have e1 : lstep v Z C l (.poll now) = (l, []) := by simp [lstep, hpc]
+      have e2 : absAct l (.poll now) = [] := by simp [absAct, hpc]
       rw [e1, e2]; exact ⟨rfl, rfl, hi⟩
-    | polling m =>
+    | polling tt =>
       have hs : l.core.stopped = false := hi (by rw [hpc]; exact PC.noConfusion)
-      cases m with
-      | zero =>
-        have e1 : lstep v Z C l .poll = (l, []) := by simp [lstep, hpc]
-        have e2 : absAct l .poll = [] := by simp [absAct, hpc]
-        rw [e1, e2]; exact ⟨rfl, rfl, hi⟩
-      | succ n =>
-        cases hq : l.core.queue with
-        | cons r q =>
-          have e : step v Z C l.core = appendRec v Z C { l.core with queue := q } r := by
-            unfold step; rw [if_neg (by simp [hs]), hq]
-          simp only [lstep, absAct, hpc, hq, ne_eq, reduceCtorEq, not_false_eq_true, true_or, if_true,
+      cases hq : l.core.queue with
+      | cons r q =>
+        have e : step v Z C l.core = appendRec v Z C { l.core with queue := q } r := by
+          unfold step; rw [if_neg (by simp [hs]), hq]
+        simp only [lstep, absAct, hpc, hq, ne_eq, reduceCtorEq, not_false_eq_true, true_or, if_true,
+          final_cons, final_nil, emitted_cons, emitted_nil, stepIn, List.append_nil, e]
+        refine ⟨trivial, trivial, fun _ => ?_⟩
+        rw [(appendRec_spec v Z C { l.core with queue := q } r hr).2.2.1]; exact hs
+      | nil =>
+        have e : step v Z C l.core = sendAndClear v Z C l.core := by
+          unfold step; rw [if_neg (by simp [hs]), hq]
+        by_cases hn : tt - now ≤ 0
+        · simp only [lstep, absAct, hpc, hq, hn, ne_eq, not_true_eq_false, false_or, if_true,
             final_cons, final_nil, emitted_cons, emitted_nil, stepIn, List.append_nil, e]
           refine ⟨trivial, trivial, fun _ => ?_⟩
-          rw [(appendRec_spec v Z C { l.core with queue := q } r hr).2.2.1]; exact hs
-        | nil =>
-          have e : step v Z C l.core = sendAndClear v Z C l.core := by
-            unfold step; rw [if_neg (by simp [hs]), hq]
-          by_cases hn : n = 0
-          · simp only [lstep, absAct, hpc, hq, hn, ne_eq, not_true_eq_false, false_or, if_true,
-              final_cons, final_nil, emitted_cons, emitted_nil, stepIn, List.append_nil, e]
-            refine ⟨trivial, trivial, fun _ => ?_⟩
-            rw [(sendAndClear_spec v Z C l.core hr).2.2.1]; exact hs
-          · simp only [lstep, absAct, hpc, hq, hn, ne_eq, not_true_eq_false, false_or, if_false,
-              final_nil, emitted_nil]
-            exact ⟨trivial, trivial, fun _ => hs⟩
+          rw [(sendAndClear_spec v Z C l.core hr).2.2.1]; exact hs
+        · have e1 : lstep v Z C l (.poll now) = (l, []) := by simp [lstep, hpc, hq, hn]
+          have e2 : absAct l (.poll now) = [] := by simp [absAct, hpc, hq, hn]
+          rw [e1, e2]; exact ⟨rfl, rfl, hi⟩
 
-/-- **every schedule of the real loop is a history of the atomic-action model** -/
+/-- **every schedule of the real loop, under every history of clock readings, is a history of the
+    atomic-action model** -/
 theorem loop_refines (as : List (Act ρ)) : ∀ l : LState ρ, LInv l →
     (lrun v Z C l as).1.core = final v Z C l.core (absHist v Z C l as) ∧
     (lrun v Z C l as).2 = emitted v Z C l.core (absHist v Z C l as) ∧
@@ -259,66 +259,79 @@ theorem loop_refines (as : List (Act ρ)) : ∀ l : LState ρ, LInv l →
 
 end
 
-/-! ### progress of the loop -/
+/-! ### timing of the loop, over arbitrary clock readings -/
 
 section
 variable (v : Variant) (Z : Zip) (C : Codec ρ)
 
-/-- `n` polls bring the loop out of GetTimeout, whatever the producers did before -/
-theorem polls_reach_top (n : Nat) : ∀ l : LState ρ, l.pc = .polling n → n ≠ 0 →
-    (lrun v Z C l (List.replicate n .poll)).1.pc = .top := by
-  induction n with
-  | zero => intro l _ h; exact absurd rfl h
-  | succ n ih =>
-    intro l hpc _
-    simp only [List.replicate_succ, lrun]
-    cases hq : l.core.queue with
-    | cons r q =>
-      have e : (lstep v Z C l .poll).1.pc = .top := by simp [lstep, hpc, hq]
-      exact top_stays v Z C n _ e
-    | nil =>
-      by_cases hn : n = 0
-      · subst hn
-        simp [lstep, hpc, hq, lrun]
-      · have e : (lstep v Z C l .poll).1.pc = .polling n := by simp [lstep, hpc, hq, hn]
-        exact ih _ e hn
-where
-  top_stays (v : Variant) (Z : Zip) (C : Codec ρ) (n : Nat) : ∀ l : LState ρ, l.pc = .top →
-      (lrun v Z C l (List.replicate n .poll)).1.pc = .top := by
-    induction n with
-    | zero => intro l h; exact h
-    | succ n ih =>
-      intro l h
-      simp only [List.replicate_succ, lrun]
-      have e : (lstep v Z C l .poll).1 = l := by simp [lstep, h]
-      rw [e]; exact ih l h
+/-- entering GetTimeout fixes the deadline: clock now + the waiting time in force at that moment -/
+theorem select_sets_deadline (l : LState ρ) (t0 : Int) (hpc : l.pc = .top) (hc : l.cancelled = false) :
+    lstep v Z C l (.select t0) = ({ l with pc := .polling (t0 + l.core.settings.maxWait) }, []) := by
+  simp [lstep, hpc, hc]
 
-/-- the idle timeout: the loop at its `select`, nothing queued, no producer active —
-    `GetTimeout` runs out of polls and the batch is flushed -/
-theorem idle_timeout_flushes (hr : v.sound = true) (l : LState ρ) (k : Nat) (hpc : l.pc = .top)
-    (hc : l.cancelled = false) (hq : l.core.queue = []) :
-    (lrun v Z C l (.select k :: List.replicate (k + 1) .poll)).1.core.bufLen = 0 ∧
-    (lrun v Z C l (.select k :: List.replicate (k + 1) .poll)).1.pc = .top := by
-  have h1 : (lstep v Z C l (.select k)).1 = { l with pc := .polling (k + 1) } := by simp [lstep, hpc, hc]
-  simp only [lrun]
-  rw [h1]
-  generalize hl : ({ l with pc := .polling (k + 1) } : LState ρ) = l1
-  have hq1 : l1.core.queue = [] := by rw [← hl]; exact hq
-  have hp1 : l1.pc = .polling (k + 1) := by rw [← hl]
-  clear hl h1 hpc hc hq
-  induction k generalizing l1 with
-  | zero =>
-    simp only [List.replicate_succ, List.replicate_zero, lrun, lstep, hp1, hq1, if_true]
-    exact ⟨(sendAndClear_spec v Z C l1.core hr).2.2.2.2.1, trivial⟩
-  | succ k ih =>
-    rw [List.replicate_succ]
-    simp only [lrun]
-    have e : (lstep v Z C l1 .poll).1 = { l1 with pc := .polling (k + 1) } := by simp [lstep, hp1, hq1]
+/-- **waiting time, both directions**: inside GetTimeout with nothing queued, the round that reads
+    the clock `now` flushes the batch (idle timeout) exactly when the deadline has been reached;
+    before that it changes nothing at all -/
+theorem idle_flush_iff_due (l : LState ρ) (timeto now : Int) (hpc : l.pc = .polling timeto) (hq : l.core.queue = []) :
+    (timeto ≤ now → lstep v Z C l (.poll now) =
+        ({ l with core := (sendAndClear v Z C l.core).1, pc := .top }, (sendAndClear v Z C l.core).2)) ∧
+    (now < timeto → lstep v Z C l (.poll now) = (l, [])) := by
+  constructor
+  · intro h
+    have : timeto - now ≤ 0 := by omega
+    simp [lstep, hpc, hq, this]
+  · intro h
+    have : ¬ (timeto - now ≤ 0) := by omega
+    simp [lstep, hpc, hq, this]
+
+/-- any number of rounds whose clock readings are all before the deadline — in any order, the clock
+    may stand still or jump back — leave the sender untouched: no early idle flush -/
+theorem no_flush_before_deadline (nows : List Int) : ∀ (l : LState ρ) (timeto : Int), l.pc = .polling timeto →
+    l.core.queue = [] → (∀ n ∈ nows, n < timeto) → lrun v Z C l (nows.map .poll) = (l, []) := by
+  induction nows with
+  | nil => intro l _ _ _ _; rfl
+  | cons n ns ih =>
+    intro l timeto hpc hq hb
+    have e := (idle_flush_iff_due v Z C l timeto n hpc hq).2 (hb n (by simp))
+    simp only [List.map_cons, lrun]
     rw [e]
-    exact ih _ hq1 rfl
+    simp only [List.nil_append]
+    exact ih l timeto hpc hq (fun m hm => hb m (by simp [hm]))
+
+/-- the idle timeout end to end: `select` at clock `t0`, rounds at arbitrary earlier readings, then
+    a round at a reading `t1 ≥ t0 + maxWait`: the batch is flushed at that round and not before, and
+    `t1 - t0 ≥ maxWait` for the waiting time in force when GetTimeout was entered -/
+theorem idle_timeout_flushes (hr : v.sound = true) (l : LState ρ) (t0 t1 : Int) (nows : List Int) (hpc : l.pc = .top)
+    (hc : l.cancelled = false) (hq : l.core.queue = [])
+    (hb : ∀ n ∈ nows, n < t0 + l.core.settings.maxWait) (hd : t0 + l.core.settings.maxWait ≤ t1) :
+    let r := lrun v Z C l (.select t0 :: (nows.map .poll ++ [.poll t1]))
+    r.1.core.bufLen = 0 ∧ r.1.pc = .top ∧ r.2 = (sendAndClear v Z C l.core).2 ∧
+    t1 - t0 ≥ l.core.settings.maxWait := by
+  have h1 := select_sets_deadline v Z C l t0 hpc hc
+  generalize hl1 : ({ l with pc := .polling (t0 + l.core.settings.maxWait) } : LState ρ) = l1 at h1
+  have hq1 : l1.core.queue = [] := by rw [← hl1]; exact hq
+  have hp1 : l1.pc = .polling (t0 + l.core.settings.maxWait) := by rw [← hl1]
+  have hcore : l1.core = l.core := by rw [← hl1]
+  have lrun_append : ∀ (as bs : List (Act ρ)) (m : LState ρ),
+      lrun v Z C m (as ++ bs) = ((lrun v Z C (lrun v Z C m as).1 bs).1, (lrun v Z C m as).2 ++ (lrun v Z C (lrun v Z C m as).1 bs).2) := by
+    intro as
+    induction as with
+    | nil => intro bs m; simp [lrun]
+    | cons a as ih => intro bs m; simp only [List.cons_append, lrun, ih, List.append_assoc]
+  have h2 := no_flush_before_deadline v Z C nows l1 _ hp1 hq1 hb
+  have h3 := (idle_flush_iff_due v Z C l1 _ t1 hp1 hq1).1 hd
+  simp only [lrun, h1, lrun_append, h2, h3, List.nil_append, List.append_nil, hcore]
+  exact ⟨(sendAndClear_spec v Z C l.core hr).2.2.2.2.1, trivial, trivial, by omega⟩
+
+/-- GetTimeout returns: whatever happened before, a round whose clock reading has reached the
+    deadline brings the loop back to its `select` -/
+theorem due_poll_returns (l : LState ρ) (timeto now : Int) (hpc : l.pc = .polling timeto) (hd : timeto ≤ now) :
+    (lstep v Z C l (.poll now)).1.pc = .top := by
+  have : timeto - now ≤ 0 := by omega
+  cases hq : l.core.queue <;> simp [lstep, hpc, hq, this]
 
 /-- cancellation: at the next `select` the loop drains, flushes and returns -/
-theorem cancel_exits (hr : v.sound = true) (hv : v.drainOnStop = true) (l : LState ρ) (k : Nat)
+theorem cancel_exits (hr : v.sound = true) (hv : v.drainOnStop = true) (l : LState ρ) (k : Int)
     (hi : LInv l) (hpc : l.pc = .top) (hc : l.cancelled = true) :
     let l' := (lstep v Z C l (.select k)).1
     l'.pc = .exited ∧ l'.core.queue = [] ∧ l'.core.bufLen = 0 ∧ l'.core.stopped = true := by
@@ -327,12 +340,12 @@ theorem cancel_exits (hr : v.sound = true) (hv : v.drainOnStop = true) (l : LSta
   exact ⟨trivial, stop_drains v Z C hv l.core hr hs, stop_flushes v Z C l.core hr hs, stop_stopped v Z C l.core⟩
 
 /-- the verification hook `StepForVerif` (select without blocking, one `GetNoWait`, else flush)
-    is one `select` entering a GetTimeout that allows a single poll, and that poll -/
+    is one `select` and one round whose clock reading is already at the deadline -/
 def hookStep (l : LState ρ) : LState ρ × List (Pack ρ) :=
   if l.cancelled then (l, []) else ({ l with core := (step v Z C l.core).1 }, (step v Z C l.core).2)
 
-theorem hookStep_is_loop_body (l : LState ρ) (hi : LInv l) (hpc : l.pc = .top) (hc : l.cancelled = false) :
-    lrun v Z C l [.select 0, .poll] = hookStep v Z C l := by
+theorem hookStep_is_loop_body (l : LState ρ) (t : Int) (hi : LInv l) (hpc : l.pc = .top) (hc : l.cancelled = false) :
+    lrun v Z C l [.select t, .poll (t + l.core.settings.maxWait)] = hookStep v Z C l := by
   have hs : l.core.stopped = false := hi (by rw [hpc]; exact PC.noConfusion)
   unfold hookStep
   simp only [hc, Bool.false_eq_true, if_false, lrun, lstep, hpc]
